@@ -209,6 +209,10 @@ def random_desc(rng: random.Random, nf: int, picker: bool = False, hook: bool = 
                       "hook": hook and rng.random() < 0.3,     # post_execution_hook: an event of its own after the call
                       "dataclass": picker and len(outs) == 1 and rng.random() < 0.2,   # a dataclass as the pipeline function
                       "renamed": [p for p in params if rng.random() < 0.3]})   # underlying argument named differently
+        # the single result of every third such function is itself a tuple: still ONE value for ONE output name
+        # (decided without drawing from rng: the other generators' streams stay as they were)
+        f_ = funcs[-1]
+        f_["rettuple"] = bool(picker and len(outs) == 1 and i % 3 == 2 and not f_["dataclass"] and not f_["retnone"])
         avail += outs
     # consistent defaults: one default value per name (already by construction)
     return {"funcs": funcs}
